@@ -296,7 +296,8 @@ impl<Key, Value> CacheD<Key, Value>
         }
 
         let key_id = update_response.key_id_or_panic();
-        let existing_weight = self.admission_policy.weight_of(&key_id).unwrap_or(0);
+        let maybe_existing_weight = self.admission_policy.weight_of(&key_id);
+        let existing_weight = maybe_existing_weight.unwrap_or(0);
 
         let updated_weight = match update_response.type_of_expiry_update() {
             TypeOfExpiryUpdate::Added(key_id, expiry) => {
@@ -305,7 +306,8 @@ impl<Key, Value> CacheD<Key, Value>
             }
             TypeOfExpiryUpdate::Deleted(key_id, expiry) => {
                 self.ttl_ticker.delete(&key_id, &expiry);
-                updated_weight.or_else(|| Some(existing_weight - Calculation::ttl_ticker_entry_size() as i64))
+                //a key that is no longer charged is being evicted or swept right now: there is no weight to reduce
+                updated_weight.or_else(|| maybe_existing_weight.map(|existing_weight| existing_weight - Calculation::ttl_ticker_entry_size() as i64))
             }
             TypeOfExpiryUpdate::Updated(key_id, old_expiry, new_expiry) => {
                 self.ttl_ticker.update(key_id, &old_expiry, new_expiry);
